@@ -270,6 +270,14 @@ elif name == "defaultnone":    # N: a mutable default replaced by the None idiom
     partition_meta = {} if partition_meta is None else partition_meta''')
 elif name == "sepscache":      # N: the regex memo of util.ex_from_sep rewritten with dict.setdefault
     sub("util.py", '''    if sep not in seps:''', '''    if seps.get(sep) is None:''')
+elif name == "nocopyhook":     # revert the __copy__ fix: what copy.copy does by default (new object + __setstate__(__getstate__()))
+    sub("api.py", '''        return self[:]
+
+    def __len__(self):''', '''        new = object.__new__(type(self))
+        new.__setstate__(self.__getstate__())
+        return new
+
+    def __len__(self):''')
 elif name == "schemadefault":  # revert fix 188c30f: indentation stack of schema_to_text in a mutable default argument
     sub("schema.py", '''def schema_to_text(root, indent=None):''', '''def schema_to_text(root, indent=[]):''')
     sub("schema.py", '''    if indent is None:
